@@ -148,10 +148,36 @@ class Exec:
 
     # -- statements
     def run(self, stmts):
-        for st in stmts:
+        for i, st in enumerate(stmts):
             if self.returned is not None:
-                raise Untranslatable("code after return", st)
+                return               # a (statically decided) early return: the rest of the block is not executed
+            if (isinstance(st, ast.If) and not st.orelse and len(st.body) == 1 and isinstance(st.body[0], ast.Return)
+                    and st.body[0].value is not None and ast.unparse(st.test) not in self.flags.get("assume", {})
+                    and not self.flags.get("ignore_return")):
+                if self.early_return(st, stmts[i + 1:]):
+                    return
+                continue
             self.stmt(st)
+
+    def early_return(self, st, rest):
+        """`if T: return A` followed by the rest of the block (which returns B) is the value `A if T else B`.
+        Returns True when the rest of the block has been consumed."""
+        c = self.expr(st.test)
+        if isinstance(c, bool):
+            if c:
+                self.stmt(st.body[0])
+            return False
+        c = self.truth(c, st)
+        a = self.expr(st.body[0].value)
+        n_ev = len(self.events)
+        self.run(rest)
+        b = self.returned
+        if len(self.events) != n_ev:
+            raise Untranslatable("abstract call after a data-dependent early return", st)
+        if not isinstance(a, N) or not isinstance(b, N) or a.shape != b.shape:
+            raise Untranslatable("data-dependent early return with incompatible results", st)
+        self.returned = N("ite", (c, a, b), a.shape)
+        return True
 
     def stmt(self, st):
         if isinstance(st, ast.Expr):
